@@ -384,6 +384,22 @@ func generateMore(suite string, seed uint64, i int, r *rng, id string, g gp) *Ca
 		edges, names := genGraph(r, g)
 		cfg := genCfg(r, cp{p1: []int{0, 1}, p2: []int{1}, p4: []int{1}, p5: []int{4}, trace: true, mon: true}, names)
 		return lay(cfg, edges)
+	case "c12-wide": // two adjacent layers of 65..90 nodes each with a random bipartite edge set: positions beyond 64 in BOTH layers
+		w1, w2 := r.rangeIn(65, 90), r.rangeIn(65, 90)
+		var edges [][]string
+		for b := 0; b < w2; b++ {
+			for x := r.rangeIn(1, 2); x > 0; x-- {
+				edges = append(edges, []string{"t" + strconv.Itoa(r.intn(w1)), "b" + strconv.Itoa(b)})
+			}
+		}
+		for a := 0; a < w1; a++ {
+			edges = append(edges, []string{"t" + strconv.Itoa(a), "b" + strconv.Itoa(r.intn(w2))})
+		}
+		edges = simpleOnly(edges)
+		cfg := genCfg(r, cp{p1: []int{0, 1}, p2: []int{0, 1}, p4: []int{0, 1, 2}, p5: []int{0}, nsPos: true, wPos: false, trace: false, mon: true}, usedNames(edges))
+		c := lay(cfg, edges)
+		c.Arg = map[string]any{"timeout_ms": 120000.0}
+		return c
 	case "c12", "c12-deep": // simple graphs, NodeSpacing > 0, polyline; deep: more than 64 layers, wide layers
 		g.selfLoops, g.multi = false, false
 		var edges [][]string
